@@ -310,6 +310,10 @@ def build_ops():
         _op("%s.%s.ownview" % (cont, bulk), [kindc], (lambda a, b: (lambda o: getattr(o, b)(getattr(o, a))))(attr, bulk), wr)
         _op("%s.%s=.ownview" % (cont, attr), [kindc], (lambda a: (lambda o: setattr(o, a, getattr(o, a))))(attr), wr[:1])
         _op("%s.%s=.reversed-ownview" % (cont, attr), [kindc], (lambda a: (lambda o: setattr(o, a, reversed(getattr(o, a)))))(attr), wr[:1])
+    # reorder setters given a list object the caller keeps (and may hand to a second container)
+    _op("cable.wires=.held", ["C", ("held",)], _setattr("wires"), ("_wires",))
+    _op("port.pins=.held", ["P", ("held",)], _setattr("pins"), ("_pins",))
+    _op("definition.cables=.held", ["D", ("held",)], _setattr("cables"), ("_cables",))
     # compound constructors given a properties dictionary (an identifier, and a user key)
     def _props(v):
         return None if v is None else {"EDIF.identifier": v, "k": [v]}
